@@ -32,8 +32,8 @@ impl RawComponents<'_> {
 impl PartialLookup<Rc<OwnedFd>> {
 //@use resolvers.PartialLookup.try_into_handle_rc
 }
-//@prove opath.do_resolve
-//@prove opath.resolve_partial
-//@prove opath.resolve
+//@prove opath.do_resolve u06
+//@prove opath.resolve_partial u06
+//@prove opath.resolve u06
 } // verus!
 fn main() {}
